@@ -986,8 +986,10 @@ def canonColumn (s : Rat) (nodes' : List GNode) (layers' : List GLayer) (c : GCo
         | some z => columnNumLayers layers' z
         | none => 0) }
 
+/-- a well after the trip: the name comes back right-justified in its five columns (`'%5s'`; the
+    reader neither strips nor justifies it), each track point at one decimal -/
 def canonWell (s : Rat) (w : GWell) : GWell :=
-  { w with pos := w.pos.map fun p => (canonC 1 s p.1, canonC 1 s p.2.1, canonC 1 s p.2.2) }
+  { name := rjust w.name 5, pos := w.pos.map fun p => (canonC 1 s p.1, canonC 1 s p.2.1, canonC 1 s p.2.2) }
 
 /-- the unit scale of a geometry (1 for anything but `'FEET '`) -/
 def scaleOf (g : Geo) : Rat := match unitScale g.hdr.unitType with
@@ -1053,7 +1055,7 @@ def columnOK (L : Nat) (s : Rat) (g : Geo) (nodes' : List GNode) (c : GColumn) :
   orientationOK nodes' c
 
 def wellOK (s : Rat) (w : GWell) : Bool :=
-  w.name.length == 5 && noNewline w.name && !w.pos.isEmpty &&
+  decide (w.name.length ≤ 5) && noNewline w.name && !w.pos.isEmpty &&
   w.pos.all fun p => fitsC 1 s p.1 && fitsC 1 s p.2.1 && fitsC 1 s p.2.2
 
 def nodup (l : List Str) : Bool := decide l.Nodup
@@ -1075,7 +1077,7 @@ def WF (g : Geo) : Bool :=
      g.layers.all (fun l => nameOK LL l.name && fitsC 2 s l.bottom && fitsC 2 s l.centre) &&
      nodup (g.layers.map (·.name)) &&
      g.wells.all (wellOK s) &&
-     nodup (g.wells.map (·.name))
+     nodup (g.wells.map fun w => rjust w.name 5)
    | _, _ => false)
 
 /-- the two header sizes (`10.2e` fields) print identically before and after rounding to three
@@ -1097,5 +1099,30 @@ def StableSurfaces (g : Geo) : Bool :=
          (decide (z.toRat ≤ l.top.toRat) == decide (z'.toRat ≤ l'.top.toRat))
        | _, _ => false)
 
+
+/-- layer tops are the bottoms of the layers above (`identify_layer_tops`) -/
+def layerTopsOK : Flt → List GLayer → Bool
+  | _, [] => true
+  | t, l :: r => l.top == t && layerTopsOK l.bottom r
+
+/-- the stored tops and default surfaces of `g` are what `identify_layer_tops` and
+    `set_default_surface` make them (true of every geometry built or read by the library);
+    every column has a surface -/
+def Consistent (g : Geo) : Bool :=
+  match g.layers with
+  | [] => true
+  | l0 :: _ =>
+    layerTopsOK l0.bottom g.layers &&
+    g.columns.all fun c => if c.defaultSurface then c.surface == some l0.bottom else c.surface.isSome
+
+/-- no column surface lies strictly above a layer bottom and yet is written as the same decimal:
+    the only way rounding can move a surface across a layer boundary
+    (`Proofs.GeoFile.stableSurfaces_iff`) -/
+def SurfaceClear (g : Geo) : Bool :=
+  let s := scaleOf g
+  g.columns.all fun c => g.layers.all fun l =>
+    match c.surface with
+    | some z => !(decide (z.toRat > l.bottom.toRat) && decide ((canonC 2 s z).toRat = (canonC 2 s l.bottom).toRat))
+    | none => true
 
 end Model.GeoFile
